@@ -251,3 +251,15 @@ def uninstall_all():
 
 def known_finding(fid, cond):
     return bool(cond)
+
+
+class u8(int):
+    pass
+
+
+class u16(int):
+    pass
+
+
+class u32(int):
+    pass
